@@ -29,6 +29,91 @@ def render (q : String) (t : Thread) : String :=
 def keysOf (o : AvObj) : String :=
   "/".intercalate (o.cache.map fun l => showSeqs (Driver.C02.sortRun l.keys))
 
+/-! ## replay of an observed run
+
+The harness records, in the global order in which they happened under its deterministic scheduler, the
+lock events of every thread and the growth of the shared cache:
+
+* `e<t>`  thread `t` entered `with LOCK` (it is committed to the locked path from here on),
+* `<t>`   thread `t` acquired the lock (plain number, as in the older acquisition-order format),
+* `w<t>`  the shared cache got one level longer while `t` was running,
+* `r<t>`  thread `t` released the lock,
+* `d<t>`  thread `t` returned from its query.
+
+The model is driven through the same events with the discipline generated from the source
+(`sourceDisc`): each event lets thread `t` take steps of `Model.C07.step` until the corresponding model
+state is reached (bounded fuel; a thread that cannot get there — e.g. a query that found its level in the
+cache and never took the lock contributes no `e`/acquire/`r` events at all — is simply advanced by its
+later events).  Every replay is a run `Model.C07.run sourceDisc s0 sched` for some schedule `sched`, so the
+theorems of `Props/C07.lean` apply to it; lock-free reads are performed lazily, at the next event of the
+reading thread, which is sound because the cache only grows (`C07.cache_never_shrinks`). -/
+
+inductive Ev where
+  | enter (t : Nat) | acq (t : Nat) | grow (t : Nat) | rel (t : Nat) | done (t : Nat)
+
+def parseEv (tok : String) : Option Ev :=
+  let k := (tok.take 1).toString
+  let r := (tok.drop 1).toString
+  if k == "e" then some (.enter (parseNat r))
+  else if k == "w" then some (.grow (parseNat r))
+  else if k == "r" then some (.rel (parseNat r))
+  else if k == "d" then some (.done (parseNat r))
+  else if tok.isEmpty || tok == "_" then none
+  else some (.acq (parseNat tok))
+
+/-- thread `t` takes steps until `stop` holds (at most `fuel` steps) -/
+def advance (d : Disc) (stop : Sys → Bool) : Nat → Sys → Nat → Sys
+  | 0, s, _ => s
+  | k+1, s, t => if stop s then s else advance d stop k (step d s t) t
+
+def isHolding (s : Sys) (t : Nat) : Bool :=
+  match s.threads[t]? with
+  | some th => (match th.phase with | .holding _ _ => true | _ => false)
+  | none => false
+
+def isCommitted (s : Sys) (t : Nat) : Bool :=
+  match s.threads[t]? with
+  | some th => (match th.phase with | .holding _ _ => true | .waiting _ => true | _ => false)
+  | none => false
+
+def isDone (s : Sys) (t : Nat) : Bool :=
+  match s.threads[t]? with
+  | some th => (match th.phase with | .idle => th.todo.isEmpty | .failed _ => true | _ => false)
+  | none => true
+
+def fuel : Nat := 64
+
+def replayEv (d : Disc) (s : Sys) : Ev → Sys
+  | .enter t => if d.fast then advance d (fun s' => isCommitted s' t || isDone s' t) fuel s t else s
+  | .acq t => advance d (fun s' => isHolding s' t || isDone s' t) fuel s t
+  | .grow t =>
+    if isHolding s t then
+      advance d (fun s' => !isHolding s' t || s'.obj.cache.length > s.obj.cache.length) fuel s t
+    else s
+  | .rel t => advance d (fun s' => !isHolding s' t) fuel s t
+  | .done t => advance d (fun s' => isDone s' t) fuel s t
+
+def replay (d : Disc) (s : Sys) (evs : List Ev) : Sys := evs.foldl (replayEv d) s
+
+/-- diagnostic only: how many observed events found the model in the corresponding state (acquire: the thread
+    holds the lock afterwards; release: it held it before; `w`: the model cache grew by exactly one level;
+    `e`: the thread is committed to the locked path; `d`: the thread is finished) -/
+def syncEv (d : Disc) (acc : Sys × Nat × Nat) (e : Ev) : Sys × Nat × Nat :=
+  let s := acc.1
+  let s' := replayEv d s e
+  let good : Bool :=
+    match e with
+    | .acq t => isHolding s' t
+    | .done t => isDone s' t
+    | .rel t => isHolding s t
+    | .enter t => !d.fast || isCommitted s' t
+    | .grow _ => s'.obj.cache.length == s.obj.cache.length + 1
+  (s', acc.2.1 + (if good then 1 else 0), acc.2.2 + 1)
+
+/-- number of fair rounds after which every thread is finished, from any reachable state
+    (`C07.fair_progress` with `C07L.totalCost`: `2n+5` per requested level covers both disciplines) -/
+def flushRounds (todos : List (List Nat)) : Nat := (todos.map fun td => (td.map fun n => 2 * n + 5).sum).sum
+
 def handle (op : String) (a : List String) : Option String :=
   match op, a with
   | "conc", [basis, queries, acq, _meta] =>
@@ -36,18 +121,33 @@ def handle (op : String) (a : List String) : Option String :=
     | none => some "ERR:ValueError"
     | some o =>
       let qs := queries.splitOn ";"
-      let s0 := initSys o (qs.map queryTodo)
-      let sched := scheduleOfAcq (parseSeq acq) 400 ++
-        (List.range 50).flatMap (fun _ => List.range qs.length)
-      let s := run s0 sched
+      let todos := qs.map queryTodo
+      let s0 := initSys o todos
+      let toks := if acq == "_" then [] else acq.splitOn ","
+      let flush := (List.range (flushRounds todos)).flatMap (fun _ => List.range qs.length)
+      let s :=
+        if toks.all (fun tok => (tok.take 1).toString != "e" && (tok.take 1).toString != "w"
+            && (tok.take 1).toString != "r" && (tok.take 1).toString != "d") then
+          -- older line format: the bare order of lock acquisitions
+          run sourceDisc s0 (scheduleOfAcq (parseSeq acq) 400 ++ flush)
+        else
+          run sourceDisc (replay sourceDisc s0 (toks.filterMap parseEv)) flush
       let keys := if _meta.endsWith ":0" then "*" else keysOf s.obj
       some ("|".intercalate ((qs.zip s.threads).map fun qt => render qt.1 qt.2) ++ "#" ++ keys)
+  | "concsync", [basis, queries, acq, _meta] =>
+    match mkObj basis with
+    | none => some "ERR:ValueError"
+    | some o =>
+      let qs := queries.splitOn ";"
+      let toks := if acq == "_" then [] else acq.splitOn ","
+      let r := (toks.filterMap parseEv).foldl (syncEv sourceDisc) (initSys o (qs.map queryTodo), 0, 0)
+      some (toString r.2.1 ++ "/" ++ toString r.2.2)
   | "concnolock", [basis, queries, sched] =>
     match mkObj basis with
     | none => some "ERR:ValueError"
     | some o =>
       let qs := queries.splitOn ";"
-      let s := runNoLock (initSys o (qs.map queryTodo)) (parseSeq sched)
+      let s := runNoLock sourceDisc (initSys o (qs.map queryTodo)) (parseSeq sched)
       some ("|".intercalate ((qs.zip s.threads).map fun qt => render qt.1 qt.2) ++ "#" ++ keysOf s.obj)
   | _, _ => none
 
